@@ -41,6 +41,7 @@ def run(report, db, tier):
     position(report, db, S)
     map_patch(report, db, S)
     aliases(report, db)
+    alias_sites(report, db)
     records(report, db, S)
 
 
@@ -856,3 +857,75 @@ def records(report, db, S):
                          '__neg__ is not component-wise negation preserving '
                          'the type')
     report.floor('vector operators', n, 6)
+
+
+# ---------------------------------------------------------------------------
+def alias_sites(report, db):
+    """Every use of an alias factory in a class body gives it what its
+    closure expects: attribute names as string constants (naming something
+    the class has, where that can be told), a container that is not a
+    string."""
+    R = report.rule('R20.6', 'alias factories are used with attribute names '
+                    '(string constants) where names belong and a callable '
+                    'container where the container belongs')
+    UTIL = 'minecraft.utility'
+    fac = {n: db.get_func(UTIL, n) for n in (
+        'attribute_alias', 'multi_attribute_alias',
+        'partial_attribute_alias', 'attribute_transform')}
+    if any(v is None for v in fac.values()):
+        raise AnalysisError('alias factory vanished from minecraft.utility')
+    n = 0
+    for ci in db.classes:
+        for name, defs in ci.attrs.items():
+            for ad in defs:
+                v = ad.value if ad.kind == 'assign' else None
+                if not isinstance(v, ast.Call):
+                    continue
+                try:
+                    ent = db.resolve_dotted(ci.module, v.func)
+                except AnalysisError:
+                    ent = None
+                which = next((k for k, f in fac.items() if ent is f), None)
+                if which is None:
+                    continue
+                n += 1
+                if any(isinstance(a, ast.Starred) for a in v.args) or any(
+                        k.arg is None for k in v.keywords):
+                    raise AnalysisError('alias factory called with star '
+                                        'arguments', v, rel(ci.path))
+
+                def is_name(a):
+                    return isinstance(a, ast.Constant) and isinstance(
+                        a.value, str) and a.value.isidentifier()
+                prob = None
+                if which == 'multi_attribute_alias':
+                    if not v.args:
+                        prob = 'no container'
+                    elif isinstance(v.args[0], ast.Constant):
+                        prob = 'the container is the constant %r' % (
+                            v.args[0].value,)
+                    else:
+                        badn = [ast.unparse(a) for a in v.args[1:]
+                                if not is_name(a)] + [
+                            ast.unparse(k.value) for k in v.keywords
+                            if not is_name(k.value)]
+                        if badn:
+                            prob = 'attribute name(s) %s are not string ' \
+                                'constants' % badn
+                elif which in ('attribute_alias', 'attribute_transform'):
+                    if not v.args or not is_name(v.args[0]):
+                        prob = 'the aliased attribute is %s, not a name' % (
+                            ast.unparse(v.args[0]) if v.args else 'missing')
+                elif which == 'partial_attribute_alias':
+                    if len(v.args) != 2 or not all(is_name(a)
+                                                   for a in v.args):
+                        prob = 'expects two attribute names'
+                if prob:
+                    report.violation(
+                        R, 'alias-site:%s.%s' % (ci.qualname, name), ci.path,
+                        v, ci.qualname, '%s = %s(...): %s -- reading or '
+                        'setting the alias raises instead of reaching the '
+                        'aliased attribute' % (name, which, prob))
+                else:
+                    report.ok(R)
+    report.floor('alias factory use sites', n, 20)
